@@ -39,7 +39,17 @@ class Broadcast(nfa.Spec):
 def run(ctx):
     ctx.explanation = EXPL
     ctx.assumptions = ["HashMap / Vec semantics", "TypeId is injective on types"]
-    fx = ctx.facts("tokio")
+    cfgs = ["tokio"] if ctx.tier == "quick" else ["tokio", "smol", "asyncstd"]
+    for cfg in cfgs:
+        fx = ctx.facts(cfg) if cfg == "tokio" else ctx.try_facts(cfg)
+        if fx is None:
+            continue
+        ctx.cfg_tag = cfg
+        run_cfg(ctx, fx)
+    return core.finish(ctx)
+
+
+def run_cfg(ctx, fx):
     # R16.1 who touches Context.children
     touch = {}
     for f in fx.d["fns"]:
@@ -125,4 +135,4 @@ def run(ctx):
     for lf, kind in loops.find_loops(fx):
         ctxup = [u for u in lf.get("upvars", []) if u.startswith("context::Context<")]
         ctx.require(len(ctxup) == 1, "R16.1", "loop-owns-context:" + kind, "the %s loop future does not own the Context (children would outlive or predecease the parent)" % kind, fn=lf["def"], site=lf["loc"])
-    return core.finish(ctx)
+    return None
